@@ -17,7 +17,7 @@ CONSTANTS GROUPS,     \* catalogue names
 
 NSq == {<<2, 2, 1>>, <<4, 2, 1>>, <<4, 4, 1>>, <<3, 3, 1>>, <<2, 2, 2>>}
 NSd == {<<2, 2, 1>>, <<4, 2, 1>>, <<3, 3, 1>>, <<2, 2, 2>>}
-NSt == NSq \cup {<<6, 6, 1>>, <<6, 3, 1>>, <<4, 4, 2>>, <<4, 2, 2>>, <<3, 3, 2>>, <<4, 4, 4>>, <<6, 6, 2>>, <<8, 8, 1>>, <<3, 3, 3>>, <<2, 2, 4>>}
+NSt == NSq \cup {<<6, 6, 1>>, <<6, 3, 1>>, <<4, 4, 2>>, <<4, 2, 2>>, <<3, 3, 2>>, <<3, 3, 3>>, <<2, 2, 4>>}
 NSs == {<<2, 2, 1>>, <<4, 4, 1>>}
 NSb == {<<4, 4, 4>>, <<8, 8, 1>>}
 
